@@ -102,8 +102,14 @@ func (w *World) stepFault(pre *Snapshot, op Op) StepOut {
 	case "tmp":
 		tmp := LogPath(w.Root) + ".tmp"
 		j := int(op.Frac * float64(len(logAfterFull)))
-		_ = os.WriteFile(tmp, logAfterFull[:j], 0o644)
-		desc = fmt.Sprintf("partial temp file (%d of %d bytes) left behind by a killed rewrite", j, len(logAfterFull))
+		content := logAfterFull[:j]
+		if int(op.Frac*1000)%4 == 0 {
+			// the complete output of a larger rewrite that died just before its rename
+			content = append(append([]byte{}, logAfterFull...), logAfterFull...)
+			j = len(content)
+		}
+		_ = os.WriteFile(tmp, content, 0o644)
+		desc = fmt.Sprintf("temp file (%d bytes; the rewrite's full output is %d) left behind by a killed rewrite", j, len(logAfterFull))
 		out.Labels = append(out.Labels, "fault.tmp", "fault.midwrite")
 	default:
 		points := KillPoints(base.Calls)
@@ -163,6 +169,9 @@ func (w *World) stepFault(pre *Snapshot, op Op) StepOut {
 		if post.Items[id] == nil {
 			w.Pruned[id] = true
 		}
+	}
+	if w.NoTwin {
+		return out
 	}
 	// (ii) the never-crashed twin: same store, log = complete lines only, no temp files
 	tw := w.newTwin("C03")
